@@ -71,8 +71,14 @@ func (w *caseWriter) close() {
 }
 
 // ---------- running the real code ----------
+// a buffer holding [unread] after [consumed] bytes already read, with [spare] bytes of capacity beyond its end that hold
+// STALE data (as after Reset/Truncate of a used buffer): nothing correct can depend on them
 func mkBuffer(consumed []byte, unread []byte, spare int) *bytes.Buffer {
-	b := make([]byte, 0, len(consumed)+len(unread)+spare)
+	b := make([]byte, len(consumed)+len(unread)+spare)
+	for i := range b {
+		b[i] = byte(0xee - 7*i)
+	}
+	b = b[:0]
 	b = append(b, consumed...)
 	b = append(b, unread...)
 	buf := bytes.NewBuffer(b)
@@ -241,7 +247,18 @@ func (w *caseWriter) wpCase(p primSpec, val any) []byte {
 		return nil
 	}
 	op := fmt.Sprintf("WP\t%s\t%s", p.text(), primValText(val))
-	buf := &bytes.Buffer{}
+	// the bytes a writer appends do not depend on the buffer it is given: rotate through used buffers
+	var buf *bytes.Buffer
+	switch w.n % 4 {
+	case 0:
+		buf = &bytes.Buffer{}
+	case 1:
+		buf = mkBuffer(nil, nil, 512)
+	case 2:
+		buf = mkBuffer([]byte{1, 2, 3, 4, 5}, nil, w.n%19)
+	default:
+		buf = mkBuffer(bytes.Repeat([]byte{0x33}, 40), nil, 64+w.n%300)
+	}
 	var err error
 	st := "ok"
 	func() {
@@ -268,7 +285,16 @@ func (w *caseWriter) rpCase(p primSpec, in []byte) {
 		return
 	}
 	op := fmt.Sprintf("RP\t%s\t%s", p.text(), hex.EncodeToString(in))
-	buf := bytes.NewBuffer(append([]byte{}, in...))
+	// what a reader returns does not depend on bytes already consumed or on stale bytes beyond the end
+	var buf *bytes.Buffer
+	switch w.n % 3 {
+	case 0:
+		buf = bytes.NewBuffer(append([]byte{}, in...))
+	case 1:
+		buf = mkBuffer(nil, in, 16+w.n%50)
+	default:
+		buf = mkBuffer([]byte{9, 8, 7}, in, w.n%11)
+	}
 	var err error
 	var v any
 	st := "ok"
@@ -306,6 +332,19 @@ func (r *rng) textWithPad(n int, pad byte) string {
 	b := make([]byte, n)
 	for i := range b {
 		b[i] = r.textByte(pad)
+	}
+	if n >= 2 && r.chance(1, 3) {
+		tails := [][]byte{bytes.Repeat([]byte{' '}, 8), bytes.Repeat([]byte{' '}, 16), bytes.Repeat([]byte{0}, 8), bytes.Repeat([]byte{'0'}, 8),
+			{0xe3, 0x80, 0x80}, {0xe3, 0x80, 0x80, 0xe3, 0x80, 0x80}, {0xa1, 0xa1}, {0xc2, 0xa0}, {'\t'}, {' ', '!'}, {' ', '!', '!'}, {pad ^ 1}, {' ', pad ^ 1},
+			{pad ^ 0x80}, {'\r', '\n'}}
+		t := tails[r.intn(len(tails))]
+		if len(t) <= n {
+			if r.chance(1, 2) {
+				copy(b[n-len(t):], t)
+			} else {
+				copy(b, t)
+			}
+		}
 	}
 	return string(b)
 }
@@ -455,7 +494,8 @@ func emitPrimCases(w *caseWriter, r *rng, thorough bool) {
 					}
 				}
 				wd := widthOf[c]
-				for _, claim := range []uint64{1, 2, 0xff, 0xffff, 0xffffffff, 0x8000000000000000, 0xffffffffffffffff} {
+				for _, claim := range []uint64{1, 2, 0xff, 0xffff, 0xffffffff, 0x8000000000000000, 0xffffffffffffffff,
+					0x20, 0x40, 0x80, 0xc0, 0x2000, 0x4000, 0x8000, 0xc000, 0xc001, 0x20000000, 0x40000000, 0x80000000, 0xc0000001} {
 					if wd < 8 && claim >= uint64(1)<<(8*uint(wd)) {
 						continue
 					}
@@ -575,6 +615,36 @@ func emitPrimExhaustive(w *caseWriter) {
 			}
 		}
 	}
+	// fixed text of width 8 over {pad, pad^1, pad^0x80, 'a'} (65,536 fields) and of width 10 over {pad, a blank that is
+	// not the pad, 'a'} (59,049 fields): every arrangement of pad-like and text bytes that a word-at-a-time trim sees
+	for _, pad := range []int{' ', 0, '0'} {
+		for _, left := range []bool{false, true} {
+			alt := byte(' ')
+			if pad == ' ' {
+				alt = 0
+			}
+			p8 := primSpec{Kind: "fixed", N: 8, Pad: pad, Left: left}
+			a8 := []byte{byte(pad), byte(pad) ^ 1, byte(pad) ^ 0x80, 'a'}
+			x := make([]byte, 8)
+			for v := 0; v < 1<<16; v++ {
+				for i := 0; i < 8; i++ {
+					x[i] = a8[(v>>(2*uint(i)))&3]
+				}
+				w.rpCase(p8, x)
+			}
+			p10 := primSpec{Kind: "fixed", N: 10, Pad: pad, Left: left}
+			a10 := []byte{byte(pad), alt, 'a'}
+			y := make([]byte, 10)
+			for v := 0; v < 59049; v++ {
+				q := v
+				for i := 0; i < 10; i++ {
+					y[i] = a10[q%3]
+					q /= 3
+				}
+				w.rpCase(p10, y)
+			}
+		}
+	}
 	in := make([]byte, 0, 2)
 	for _, p := range specs {
 		w.rpCase(p, in[:0])
@@ -690,6 +760,41 @@ func emitCalcCases(w *caseWriter, r *rng, thorough bool) {
 				hi[i] |= 0x80
 			}
 			w.ckCase(a, hi)
+		}
+		// periodic inputs: each position of a 2/4/8/16-byte period is all-ones, zero or random - what word-at-a-time
+		// summing with packed lanes gets wrong shows only when some lanes stay small while others fill up
+		for _, period := range []int{2, 4, 8, 16} {
+			reps := 3
+			if thorough {
+				reps = 24
+			}
+			for k := 0; k < reps; k++ {
+				pat := make([]byte, period)
+				for i := range pat {
+					switch r.intn(4) {
+					case 0:
+						pat[i] = 0xff
+					case 1:
+						pat[i] = 0
+					case 2:
+						pat[i] = byte(0x80 + r.intn(0x80))
+					default:
+						pat[i] = byte(r.intn(256))
+					}
+				}
+				for _, n := range []int{1032, 2056, 5000, 8200} {
+					w.ckCase(a, bytes.Repeat(pat, n/period+1)[:n])
+				}
+			}
+			for mask := 0; mask < 1<<uint(period) && period <= 8; mask++ {
+				pat := make([]byte, period)
+				for i := range pat {
+					if mask>>uint(i)&1 == 1 {
+						pat[i] = 0xff
+					}
+				}
+				w.ckCase(a, bytes.Repeat(pat, 1040/period+1)[:1040])
+			}
 		}
 		if thorough {
 			w.ckCase(a, bytes.Repeat([]byte{0xff}, 1<<20))
